@@ -145,7 +145,11 @@ def impl(case):
             traj.split(2)
         pos3, disp3, cum3, dist3, _ = _obs(traj)
         same3 = bool(np.array_equal(pos, pos3) and np.array_equal(disp, disp3) and np.array_equal(cum, cum3) and np.allclose(dist, dist3, rtol=1e-12, atol=1e-12))
-        out[name] = {'after_derived_same': same3, 'pos': (pos * DEN).transpose(1, 2, 0).tolist(), 'disp': (disp * DEN).transpose(1, 2, 0).tolist(),
+        # a fresh object asked for the displacement-based quantities FIRST (before any positions query wrapped its coordinates)
+        fresh = synth.make_traj(m, ['Li'] * arr.shape[1], arr, rot=rot, mode='asis')
+        cum_first = np.array(fresh.cumulative_displacements)
+        dist_first = np.array(fresh.distances_from_base_position())
+        out[name] = {'cum_first': (cum_first * DEN).transpose(1, 2, 0).tolist(), 'dist_first': dist_first.tolist(), 'after_derived_same': same3, 'pos': (pos * DEN).transpose(1, 2, 0).tolist(), 'disp': (disp * DEN).transpose(1, 2, 0).tolist(),
                      'cum': (cum * DEN).transpose(1, 2, 0).tolist(), 'dist': dist.tolist(),
                      'pos2_same': bool(np.array_equal(pos, pos2))}
     return out
@@ -218,6 +222,14 @@ def oracle(case, out):
     for a in range(c.shape[0]):
         if tie_atoms[a]:
             continue
+        for name in ('a', 'b'):
+            if 'cum_first' in out[name] and (out[name]['cum_first'][a] != out[name]['cum'][a]
+                                             or not np.allclose(out[name]['dist_first'][a], out[name]['dist'][a], rtol=1e-12, atol=1e-12)):
+                fs.append(('displacements/depend-on-query-order', f'atom {a} (input {"with" if name == "b" else "without"} whole-cell shifts): cumulative displacements / distances '
+                           'asked of a fresh trajectory first differ from those obtained after a positions query'))
+                break
+        if 'cum_first' in out['a'] and out['a']['cum_first'][a] != out['b']['cum_first'][a]:
+            fs.append(('shift/cumulative-displacements-change', f'atom {a}: cumulative displacements (asked first, before any positions query) change under whole-cell shifts'))
         if out['a']['cum'][a] != out['b']['cum'][a]:
             fs.append(('shift/cumulative-displacements-change', f'atom {a}: cumulative displacements change under whole-cell shifts'))
         da, db = np.array(out['a']['dist'][a]), np.array(out['b']['dist'][a])
